@@ -39,6 +39,11 @@ struct H : drv::Harness
 			else if (w < 93) p.ops.push_back(Op("silence", { rng.chance(0.5) ? rng.range(100, 1500) : rng.range(1500, 7000) }));
 			else p.ops.push_back(Op("restart"));
 		}
+		// some plans let an operation overlap with the next one (no wait for quiescence in between): application sends then
+		// race with the inbound thread's answers and control-record updates
+		if (rng.chance(0.35))
+			for (auto& op : p.ops)
+				if (op.k != "restart" && op.k != "silence" && op.k != "prr" && rng.chance(0.5)) op.s = "race";
 		return p;
 	}
 
@@ -155,6 +160,7 @@ struct H : drv::Harness
 				w.connect(full); ++nrestarts; sim::count("op_restart");
 				if (!w.peer_logon()) { w.settle(); }
 			}
+			if (op.s == "race" && i + 1 < p.ops.size() && p.ops[i + 1].k != "restart") { sim::count("op_overlapped_with_next"); continue; }
 			w.settle();
 			w.snap(i + 1); scan_wire();
 			if (w.framing_error.size()) r.fail("wire_garbled", fam, w.framing_error);
@@ -177,6 +183,7 @@ struct H : drv::Harness
 		if (op.k == "batch") v.push_back(Op("app"));
 		if (op.k == "appref") v.push_back(Op("app"));
 		if (op.k == "silence" && op.arg(0) > 100) v.push_back(Op("silence", { op.arg(0) / 2 }));
+		if (op.s == "race") { Op o = op; o.s.clear(); v.push_back(o); }
 		return v;
 	}
 	std::vector<std::pair<std::string, int64_t>> knob_floor() const override { return { { "short_read_pm", 0 }, { "short_write_pm", 0 }, { "eagain_pm", 0 }, { "dribble_pm", 0 }, { "cfg_send", 0 }, { "pm", 0 } }; }
